@@ -25,6 +25,9 @@ def gen(tier, seed):
     yield {'conv': 'ugrid', 'ny': 1, 'nx': 2, 'face_dimension_attr': False}
     yield {'conv': 'ugrid', 'ny': 1, 'nx': 1, 'face_dimension_attr': False, 'tables': ['edge_node']}
     yield {'conv': 'ugrid', 'ny': 1, 'nx': 3, 'face_dimension_attr': False, 'start_index': 1}
+    # the coordinate variables named by the caller (files without CF attributes): CFGrid1D(dataset, latitude=..., longitude=...)
+    yield {'conv': 'cf1d', 'ny': 2, 'nx': 5, 'explicit_names': True}
+    yield {'conv': 'cf1d', 'ny': 4, 'nx': 3, 'explicit_names': True, 'as_coords': False, 'ydim': 'y', 'xdim': 'x'}
     # tables that mention edges in a dataset without an edge dimension (no attribute, no edge table): still no edge grid
     yield {'conv': 'ugrid', 'ny': 2, 'nx': 3, 'split': [[0, 0]], 'tables': ['face_edge'], 'edge_dimension': False}
     yield {'conv': 'ugrid', 'ny': 2, 'nx': 2, 'tables': ['face_edge', 'face_face'], 'edge_dimension': False, 'start_index': 1}
@@ -37,7 +40,13 @@ def native_form(conv, kind, comps):
 
 
 def test(spec):
-    ds = datasets.build({k: v for k, v in spec.items() if k != 'coordinate_order'})
+    ds = datasets.build({k: v for k, v in spec.items() if k not in ('coordinate_order', 'explicit_names')})
+    if spec.get('explicit_names'):
+        from emsarray.conventions.grid import CFGrid1D
+        for n in ('lat', 'lon'):
+            ds[n].attrs.clear()            # nothing to detect the coordinates by
+        conv = must(lambda: CFGrid1D(ds, latitude='lat', longitude='lon'), "CFGrid1D(dataset, latitude='lat', longitude='lon')")
+        conv.bind()
     if spec.get('coordinate_order'):
         # the general Arakawa C convention, its coordinate names given as a mapping in the caller's order, bound to the dataset
         from emsarray.conventions.arakawa_c import ArakawaC, ArakawaCGridKind
@@ -49,7 +58,7 @@ def test(spec):
     kinds = must(lambda: set(ems.grid_kinds), 'grid_kinds')
     if set(sizes) != kinds:
         return f'grid_size keys {set(sizes)} != grid_kinds {kinds}'
-    expected = datasets.expected_grids(spec)
+    expected = datasets.expected_grids({k: v for k, v in spec.items() if k != 'explicit_names'})
     if {getattr(k, 'value', k) for k in kinds} != set(expected):
         return f'grid_kinds {kinds} but the dataset defines {sorted(expected)}'
     for kind in kinds:
